@@ -104,6 +104,8 @@ async fn file_paths(config: &Config, write: bool) -> PersistenceResult<(PathBuf,
 pub(crate) async fn toggle_alternating_files(path: &Path, write: bool) -> PersistenceResult<bool> {
     if write {
         if remove_file(path).await.is_ok() {
+            #[cfg(feature = "verif")]
+            crate::verif::fs_step("toggle-remove");
             debug!(
                 "toggle file {} removed, writing to backup",
                 path.to_string_lossy()
@@ -111,6 +113,8 @@ pub(crate) async fn toggle_alternating_files(path: &Path, write: bool) -> Persis
             Ok(false)
         } else {
             File::create(path).await?;
+            #[cfg(feature = "verif")]
+            crate::verif::fs_step("toggle-create");
             debug!(
                 "toggle file {} created, writing to main",
                 path.to_string_lossy()
